@@ -1125,10 +1125,36 @@ func c13RangePairs(c *Ctx, g *load.G) {
 func c13ArrayBounds(c *Ctx, g *load.G) {
 	r := c.R
 	n := 0
+	// the Basic Latin table (a [128]bool filled by BasicLatinLookup and its helpers) is decided on the normalised
+	// paths of BasicLatinLookup, helpers expanded: every index is a member proven < 128, its ASCII case twin, or a
+	// position of a loop over all 128 entries
+	blHelpers := map[string]bool{"BasicLatinLookup": true}
+	if bp := g.Pkg("builder"); bp != nil {
+		for _, fd := range load.AllFuncDecls(bp) {
+			if fd.Type.Params == nil {
+				continue
+			}
+			for _, f := range fd.Type.Params.List {
+				if nospace(f.Type) == "*[128]bool" {
+					blHelpers[fd.Name.Name] = true
+				}
+			}
+		}
+		model, blfd := c.basicLatinModel()
+		if blfd != nil {
+			key := "array-indices-bounded"
+			n += 4
+			r.Check(len(model[key]) == 0, "C13-f", "G.builder.BasicLatinLookup:"+key, "", g.Where(blfd.Pos()), "every table index is a member below 128, its ASCII case twin, or a loop position below 128",
+				strings.Join(uniq(model[key]), "; ")+": an out-of-range index makes the generator die with a Go panic trace (e.g. unicode.SimpleFold('k') is U+212A)")
+		}
+	}
 	for _, sfx := range []string{"", "ast", "builder"} {
 		p := g.Pkg(sfx)
 		for _, fd := range load.AllFuncDecls(p) {
 			if fd.Body == nil || strings.HasSuffix(g.Fset.Position(fd.Pos()).Filename, "/pigeon.go") {
+				continue
+			}
+			if sfx == "builder" && blHelpers[fd.Name.Name] {
 				continue
 			}
 			k := 0
